@@ -1,8 +1,9 @@
 /*UNIT
-{"props": ["C13"], "src": ["lib/log.c"], "mode": "plain", "kind": "bounded", "bound": "target slots 0..3 in use (conf_active_max < 4), all other slots unused; loops unwound 5 times", "unwind": 5, "defines": ["-DVERIF_SLOTS=4"],
+{"props": ["C13"], "src": ["lib/log.c"], "mode": "plain", "kind": "bounded", "bound": "target slots 0..1 in use (conf_active_max < 2), all other slots unused; slot loops unwound 3 times", "unwind": 3, "defines": ["-DVERIF_SLOTS=2", "-DVERIF_VS_FRESH_BUFFER"],
  "functions": ["qb_log_real_va_", "cs_format (inlined)"],
- "restrict_fp": ["qb_log_real_va_.function_pointer_call.1/verif_old_fn", "qb_log_real_va_.function_pointer_call.2/verif_vlogger",
-                 "qb_log_real_va_.function_pointer_call.3/verif_logger"],
+ "restrict_fp": ["qb_log_real_va_.function_pointer_call.1/verif_old_fn", "qb_log_real_va_.function_pointer_call.2/verif_old_fn",
+                 "qb_log_real_va_.function_pointer_call.3/verif_vlogger",
+                 "qb_log_real_va_.function_pointer_call.4/verif_logger", "qb_log_real_va_.function_pointer_call.5/verif_logger"],
  "stubs": ["vsnprintf (destination writable for size asserted; result chosen by the harness, non-empty)", "strchr (witness form)",
            "malloc (may fail)", "qb_atomic_int_* (sequential)", "qb_util_timespec_from_epoch_get", "qb_log_thread_log_post (records the buffer)",
            "target logger / vlogger callbacks (record what they are handed)"],
